@@ -367,7 +367,7 @@ theorem IdInv_step {s s' : St} {a : Act} (inv : IdInv s) (h : step? s a = some s
       · simp only [Option.some.injEq] at h; subst h
         have hu : ∀ x : Item, (if (x.id == id) = true then { x with prio := p } else x).id = x.id := by
           intro x; split <;> rfl
-        simp only [cntAll, cnt_map_id _ hu]
+        simp only [cntAll, cnt_map_id _ hu, cnt_adjustAll]
         cases hd : s.disp with
         | handOff m held =>
           cases held <;> simp only [hd, dispItems, cnt_pair, cnt_single] at h1 h2 <;>
